@@ -61,7 +61,7 @@ CHECKS = {
    "Exceeding U*(1+H*V) keys or H*V index records, or keys left after a successful unsafe request on a store holding only the target's keys, is a violation.",
    "a leak slower than one record per round would need more rounds", "DESIGN.md 4 C19"),
  "C20": T("exploration", RM + "scenario oracle over the full grid latency x background outcome x timeout setting x caller context x validators: foreground duration, number and conditionality of background calls, the exact instant the background request is released, goroutines with repository frames after quiescence; a store-faults part repeats the judgments with one store operation after the entry went stale failing in turn",
-   "A foreground wait, a call count != 1, a missing validator, a release at another instant than min(timeout, caller context end, reply), a leaked goroutine or a failed foreground is a violation.",
+   "A foreground wait, a call count != 1, a missing validator, a release at another instant than min(timeout, reply) - whatever happens to the caller's context -, a leaked goroutine or a failed foreground is a violation.",
    "'never answering' observed for 10T+2h virtual", "DESIGN.md 4 C20"),
  "C16": T("exploration", "Go race detector over free-running random histories with background revalidation (Mode R), snapshot comparison of every returned header map and body at return / quiescence / end of history, and a deterministic gate scheduler (Mode S) that parks every store and origin operation of two concurrent requests and enumerates their interleavings depth-first, judging each outcome against the sequential rules (resource, variant, body token, invalidation epoch); a store-faults part fails every foreground and background store operation in turn under the same ownership monitors, with callers that read the body only after quiescence",
    "Race reports with a repository frame, any change of a returned header map after return, any modification of the caller's request, and any response of an enumerated interleaving that no sequential rule permits are violations.",
